@@ -240,6 +240,26 @@ func selectionBeforePropagation(c *core.Ctx, rule string, floor int) {
 			at = bad[0].Pos()
 		}
 		c.Check(len(bad) == 0, rule, f.Name(), at, "a path from the table mutation to propagateChanges does not pass Route.PathSelection: clients would be told about an unsorted path list")
+		// the selection runs on the route the table stores (obtained from RoutingTable.Get), not on a copy that is thrown away
+		for _, call := range core.Calls(f.Pkg, f.Decl.Body, func(o *types.Func) bool { return o == sel.Obj }) {
+			sx, ok := call.Fun.(*ast.SelectorExpr)
+			if !ok {
+				continue
+			}
+			stored := false
+			recv := core.ObjOf(f.Pkg, sx.X)
+			if recv != nil {
+				defs := core.DefsOf(f, recv)
+				stored = len(defs) > 0
+				for _, d := range defs {
+					dc, isCall := core.Unparen(d).(*ast.CallExpr)
+					if !isCall || core.FuncKey(core.Callee(f.Pkg, dc)) != "routingtable.(*RoutingTable).Get" {
+						stored = false
+					}
+				}
+			}
+			c.Check(stored, rule, f.Name()+" selection runs on the stored route", call.Pos(), "PathSelection is called on "+core.ExprString(sx.X)+", which is not the route obtained from the table (RoutingTable.Get): the table keeps the old order and equal-cost count, so every later reader of the Loc-RIB (a newly registered client, an export-policy refresh, Dump) sees a best path the decision process did not choose")
+		}
 		// the new-route argument, if it is a local copy, must be taken after selection
 		for _, call := range core.Calls(f.Pkg, f.Decl.Body, func(o *types.Func) bool { return o == prop.Obj }) {
 			if len(call.Args) != 2 {
